@@ -17,6 +17,7 @@ mod der;
 mod manifest;
 mod prefixlaws;
 mod pubpoint;
+mod pubproto;
 mod reschain;
 mod rfc1982;
 mod rrdp;
@@ -72,6 +73,7 @@ fn main() {
         ("drive", "rtrpacing") => rtrpacing::drive(rest),
         ("replay", "rtrfanout") => rtrfanout::replay(rest),
         ("replay", "rtaval") => rtaval::replay(rest),
+        ("replay", "pubproto") => pubproto::replay(rest),
         ("replay", "pubpoint") => pubpoint::replay(rest),
         ("replay", "rrdpsync") => rrdpsync::replay(rest),
         ("drive", "pubpoint") => pubpoint::drive(rest),
